@@ -144,7 +144,8 @@ fn op_strategy(nat: fn() -> BoxedStrategy<Nat>) -> impl Strategy<Value = Op> {
         2 => Just(23u8),
         3 => Just(24u8),
         4 => Just(25u8),
-        1 => Just(26u8),
+        2 => Just(26u8),
+        1 => Just(27u8),
     ];
     (kind, any::<u8>(), any::<u8>(), any::<u8>(), any::<u8>(), prop_oneof![3 => 0u32..200, 2 => 0u32..9000, 1 => any::<u32>()], any::<bool>(), nat())
         .prop_map(|(k, a, b, d, form, n, neg, v)| {
@@ -353,7 +354,7 @@ fn fuzz_tier(ck: &mut Check, runs: u64) {
 fn main() {
     let mut ck = Check::new(
         "C17",
-        "histories of up to 30 (thorough 60) operations over a pool of 4 live integers: construction (words, bytes, primitives, ones, parse), + - * / % & | ^ in by-reference / by-value / compound-assignment forms, self-assignment patterns x op= &x.clone(), shifts, bit edits, clone, clone_from between any two slots, mem::take, shrinking to k words and growing by whole words, byte/word/chunk/text round trips, read-only use of from_static_words values; sizes steered across the 2<->3 word boundary and reallocation thresholds. After every step every slot: value == num-bigint model and hook invariants (inline iff <= 2 words, heap => len >= 3, top word != 0, len <= capacity <= len + len/4 + 4, zero positive); guarding allocator: wrong-size free, double free, tail canary, leaked bytes per history. Non-trivial: history with an inline<->heap transition and a clone_from; distinct by case digest.",
+        "histories of up to 30 (thorough 60) operations over a pool of 4 live integers: construction (words, bytes, primitives, ones, parse), + - * / % & | ^ in by-reference / by-value / compound-assignment forms, self-assignment patterns x op= &x.clone(), shifts, bit edits, clone, clone_from between any two slots, mem::take, shrinking to k words and growing by whole words, byte/word/chunk/text round trips, read-only use of from_static_words values, Zeroize (cargo feature), modular rings (ConstDivisor / Reduced), gcd / division / roots in by-value forms; sizes steered across the 2<->3 word boundary and reallocation thresholds. After every step every slot: value == num-bigint model and hook invariants (inline iff <= 2 words, heap => len >= 3, top word != 0, len <= capacity <= len + len/4 + 4, zero positive); guarding allocator: wrong-size free, double free, tail canary, leaked bytes per history. Non-trivial: history with an inline<->heap transition and a clone_from; distinct by case digest.",
     );
     let th = ck.thorough();
     ck.sub("history", (150_000, 3_000_000), move || history(if th { 60 } else { 30 }), judge);
